@@ -333,7 +333,7 @@ PROPS = {
         harness=[storediff('storediff-all', None, (25, 30), (800, 40), (300, 40)),
                  dict(storediff('storediff-pgmodel', None, (25, 30), (800, 40), (300, 40)), regenerated_driver=True, divergence_is_violation=True),
                  dict(storediff('storediff-pgshim', None, (25, 30), (800, 40), (300, 40)), regenerated_driver=True, divergence_is_violation=True)],
-        rule='storediff-pgshim: the REAL postgres.go worker (Execute, performCommands, all handlers, the Postgres SQL text) run over a database/sql shim ($N -> ?N, ::casts stripped) on sqlite and compared, result by result and table by table, with the model under the regenerated Postgres definitions, for every command kind except the three whose SQL is Postgres-only (jsonb containment in the two searches, DISTINCT ON in the enqueueable select); the deciding artefact for those, and for engine semantics, is static: both statement sets and both handler argument lists are re-translated from /repo on every run and proved '
+        rule='storediff-pgshim: (deadline phase: Execute with a transaction deadline that expires while the last statement, made slow by the shim, is still running — an acknowledged write is in the database, as with the sqlite worker) the REAL postgres.go worker (Execute, performCommands, all handlers, the Postgres SQL text) run over a database/sql shim ($N -> ?N, ::casts stripped) on sqlite and compared, result by result and table by table, with the model under the regenerated Postgres definitions, for every command kind except the three whose SQL is Postgres-only (jsonb containment in the two searches, DISTINCT ON in the enqueueable select); the deciding artefact for those, and for engine semantics, is static: both statement sets and both handler argument lists are re-translated from /repo on every run and proved '
              'equal, definition by definition, to SqlSpec.defs .pg / .sqlite (110 tie theorems), whose store semantics are proved equal under DialectSafe; '
              'storediff validates the shared model against the real sqlite store (random batches over all 27 kinds; non-trivial = affected/returned >= 1 row)',
         assumptions=['no Postgres server exists in the sandbox: the Postgres Go code is exercised over a shim on sqlite (storediff-pgshim), engine-specific behaviour of a real server is not observed; the three Postgres-only statements are decided statically (translation + proof)',
